@@ -246,6 +246,46 @@ pub proof fn lemma_fit_stmts(v: Vec<Reference<Statement>>, name: Seq<char>, n: n
 , Ghost(|s: Reference<Expression>| ids_plus(occ_expr(s.reference, name@), s.offset as int))
 //@end
 
+// ---------- find_types::get_ident_in_type_expr: the type name at the bottom of a (nested) array type, with all offsets
+/// the named type a type expression bottoms out in, displaced by every Reference offset on the way (relative to the
+/// Reference that holds `t`'s own Reference)
+pub open spec fn ident_of_texpr(t: Reference<TypeExpression>) -> Option<Identifier>
+    decreases t
+{
+    match (match t.reference {
+        TypeExpression::NamedType(ident) => Some(ident),
+        TypeExpression::ArrayType { size, base_type, info } => match base_type { Some(b) => ident_of_texpr(*b), None => None },
+    }) {
+        Some(id) => Some(id_plus(id, t.offset as int)),
+        None => None,
+    }
+}
+pub open spec fn texpr_fits(t: Reference<TypeExpression>) -> bool
+    decreases t
+{
+    (match t.reference {
+        TypeExpression::NamedType(ident) => true,
+        TypeExpression::ArrayType { size, base_type, info } => match base_type { Some(b) => texpr_fits(*b), None => true },
+    }) && (match (match t.reference {
+        TypeExpression::NamedType(ident) => Some(ident),
+        TypeExpression::ArrayType { size, base_type, info } => match base_type { Some(b) => ident_of_texpr(*b), None => None },
+    }) { Some(id) => range_fits(id.info.range, t.offset as int), None => true })
+}
+//@extract spl_frontend/src/ast.rs :: impl<T> AsRef<T> for Reference<T>
+//@ ret r fn as_ref
+//@ sig fn as_ref
+        ensures *r == self.reference,
+//@end
+//@extract lsp4spl/src/features/references.rs :: fn find_types :: fn get_ident_in_type_expr
+//@ rewrite and_then_inline map_inline box_as_ref
+//@ ret r
+//@ sig
+        requires texpr_fits(*type_expr),
+        ensures
+            r == ident_of_texpr(*type_expr), //# get_ident_in_type_expr::named_type_with_all_offsets
+        decreases type_expr
+//@end
+
 pub proof fn witness_refs(id: Identifier) {
     let v = Variable::NamedVariable(id);
     assert(offsets_fit_var(v, id.value@));
